@@ -78,7 +78,7 @@ pub fn inflate(e: &ZEntry) -> Option<Vec<u8>> {
         0 => Some(e.comp.clone()),
         8 => {
             let mut d = flate2::read::DeflateDecoder::new(&e.comp[..]);
-            let mut v = Vec::with_capacity(e.usize_ as usize);
+            let mut v = Vec::with_capacity((e.usize_ as usize).min(64 << 20));
             d.read_to_end(&mut v).ok()?;
             Some(v)
         }
